@@ -443,7 +443,9 @@ def rule_ef(ctx, R, sector, gauss_site, scan_site):
     v = Vals(sector)
     sites = [(bi, t) for bi, t, cb in R.local_callees(sector) if cb is read]
     sbi = scan_site[0]
-    feeds_scan = [bi for bi, t in sites if v.root(scan_site[1]["args"][scan_site[3]]) == Root(("call", bi))]
+    from .c06 import feeding_read_block
+    fb = feeding_read_block(v, R, read, scan_site[1]["args"][scan_site[3]])
+    feeds_scan = [bi for bi, t in sites if bi == fb]
     xi = [(bi, t) for bi, t in sites if bi not in feeds_scan]
     ok = len(sites) == 2 and len(feeds_scan) == 1 and len(xi) == 1
     ctx.ob("C14-f", "sector routine has exactly two read sites: the scan's uniform and xi", ok, sector.path, "sector-read-sites",
